@@ -37,33 +37,92 @@ func constName(info *types.Info, e ast.Expr) (string, bool) {
 }
 
 // fieldPathOf: q.Namespace, *q.Namespace, q.SubjectSet.Namespace -> "Namespace", "SubjectSet.Namespace"
-func fieldPathOf(e ast.Expr) string {
+func fieldPathOf(e ast.Expr) string { return fieldPathOfA(e, nil) }
+
+func fieldPathOfA(e ast.Expr, localAlias func(*ast.Ident) ast.Expr) string {
 	e = ast.Unparen(e)
 	switch x := e.(type) {
 	case *ast.StarExpr:
-		return fieldPathOf(x.X)
+		return fieldPathOfA(x.X, localAlias)
 	case *ast.UnaryExpr:
-		return fieldPathOf(x.X)
+		return fieldPathOfA(x.X, localAlias)
 	case *ast.SelectorExpr:
-		inner := fieldPathOf(x.X)
+		inner := fieldPathOfA(x.X, localAlias)
 		if inner == "" {
 			return x.Sel.Name
 		}
 		return inner + "." + x.Sel.Name
 	case *ast.Ident:
+		if localAlias != nil {
+			if init := localAlias(x); init != nil {
+				return fieldPathOfA(init, localAlias)
+			}
+		}
 		return ""
 	}
 	return "?"
 }
 
+// localAliasesOf resolves a local variable that is defined once and never assigned again
+// (subjectSet := q.SubjectSet) to its initialiser.
+func localAliasesOf(info *types.Info, fd *ast.FuncDecl) func(*ast.Ident) ast.Expr {
+	inits := map[types.Object]ast.Expr{}
+	spoiled := map[types.Object]bool{}
+	ast.Inspect(fd.Body, func(n ast.Node) bool {
+		switch x := n.(type) {
+		case *ast.AssignStmt:
+			for i, l := range x.Lhs {
+				id, ok := ast.Unparen(l).(*ast.Ident)
+				if !ok {
+					continue
+				}
+				if o := info.Defs[id]; o != nil && x.Tok == token.DEFINE && len(x.Lhs) == len(x.Rhs) {
+					inits[o] = x.Rhs[i]
+				} else if o := info.Uses[id]; o != nil {
+					spoiled[o] = true
+				}
+			}
+		case *ast.UnaryExpr:
+			if id, ok := ast.Unparen(x.X).(*ast.Ident); ok && x.Op == token.AND {
+				if o := info.Uses[id]; o != nil {
+					spoiled[o] = true
+				}
+			}
+		case *ast.IncDecStmt:
+			if id, ok := ast.Unparen(x.X).(*ast.Ident); ok {
+				if o := info.Uses[id]; o != nil {
+					spoiled[o] = true
+				}
+			}
+		case *ast.RangeStmt:
+			for _, e := range []ast.Expr{x.Key, x.Value} {
+				if id, ok := e.(*ast.Ident); ok {
+					if o := info.Uses[id]; o != nil {
+						spoiled[o] = true
+					}
+				}
+			}
+		}
+		return true
+	})
+	return func(id *ast.Ident) ast.Expr {
+		o := info.Uses[id]
+		if o == nil || spoiled[o] {
+			return nil
+		}
+		return inits[o]
+	}
+}
+
 func urlPairsWritten(pkg *packages.Package, fd *ast.FuncDecl) map[string]string {
 	out := map[string]string{}
+	localAlias := localAliasesOf(pkg.TypesInfo, fd)
 	ast.Inspect(fd.Body, func(n ast.Node) bool {
 		switch x := n.(type) {
 		case *ast.CallExpr:
 			if sel, ok := x.Fun.(*ast.SelectorExpr); ok && (sel.Sel.Name == "Add" || sel.Sel.Name == "Set") && len(x.Args) == 2 {
 				if k, ok := constName(pkg.TypesInfo, x.Args[0]); ok {
-					out[k] = fieldPathOf(x.Args[1])
+					out[k] = fieldPathOfA(x.Args[1], localAlias)
 				}
 			}
 		case *ast.CompositeLit:
@@ -75,7 +134,7 @@ func urlPairsWritten(pkg *packages.Package, fd *ast.FuncDecl) map[string]string 
 				}
 				if k, ok := constName(pkg.TypesInfo, kv.Key); ok {
 					if cl, ok := kv.Value.(*ast.CompositeLit); ok && len(cl.Elts) == 1 {
-						out[k] = fieldPathOf(cl.Elts[0])
+						out[k] = fieldPathOfA(cl.Elts[0], localAlias)
 					}
 				}
 			}
